@@ -481,7 +481,18 @@ pub fn one_case(r: &mut Rng, shape: &Shape) -> String {
                     _ => {}
                 }
                 // the request may claim a different salt than the signed one
-                let req_salt = if r.chance(1, 12) { r.pick(&salts).clone() } else { salt.clone() };
+                let mut req_salt = if r.chance(1, 12) { r.pick(&salts).clone() } else { salt.clone() };
+                // ... consistently: an item signed for one salt (or none) offered under the target of another salt
+                // (or of none) of the same key - replay across salts
+                if r.chance(1, 10) {
+                    let other: Option<Vec<u8>> = match &salt {
+                        Some(_) if r.chance(1, 2) => None,
+                        Some(x) => Some([x.as_slice(), b"2"].concat()),
+                        None => Some(b"s".to_vec()),
+                    };
+                    target = *MutableItem::target_from_key(&k, other.as_deref()).as_bytes();
+                    req_salt = other;
+                }
                 // stored seq of that target, to aim cas at it
                 let stored = server.verif_dump().mutable.iter().find(|(t, _)| t.as_bytes() == &target).map(|(_, it)| it.seq());
                 let cas = match r.below(6) {
